@@ -61,7 +61,32 @@ class P(object):
             break
         return items, trail
 
+    WORDS = {"ID": "WW", "INT": "WI", "FLOAT": "WF", "PLAIN_STRING": "WP"}
+
+    def words(self):
+        """a maximal run of word tokens (unquoted text): one ID / INT / FLOAT is a leaf, anything else is XWords"""
+        run = []
+        while self.peek() in self.WORDS:
+            ty = self.peek()
+            run.append((ty, self.take(ty)))
+        if len(run) == 1 and run[0][0] in ("ID", "INT", "FLOAT"):
+            return "(XLeaf (%s %s))" % (LEAF[run[0][0]], ctext(run[0][1]))
+        if run[-1][0] not in ("ID", "PLAIN_STRING"):
+            raise Outside("unquoted text ending in a numeral")
+        ws = []
+        for ty, lx in run:
+            if ty == "FLOAT":
+                ws.append("(WF %s %s)" % (ctext(lx), ctext(str(float(lx)))))
+            else:
+                ws.append("(%s %s)" % (self.WORDS[ty], ctext(lx)))
+        return "(XWords %s)" % clist(ws)
+
     def value(self):
+        if self.peek() in self.WORDS:
+            v = self.words()
+            if self.peek() not in ("COMMA", "RBRACK", "RPAREN"):
+                raise Outside("value followed by %s" % self.peek())
+            return v
         if self.peek() == "LBRACK":
             self.take("LBRACK")
             if self.peek() == "RBRACK":
@@ -75,18 +100,59 @@ class P(object):
             raise Outside("value followed by %s" % self.peek())
         return v
 
+    def wordrun(self):
+        run = []
+        while self.peek() in self.WORDS:
+            ty = self.peek()
+            run.append((ty, self.take(ty)))
+        if not run or run[-1][0] not in ("ID", "PLAIN_STRING"):
+            raise Outside("unquoted text ending in a numeral")
+        ws = []
+        for ty, lx in run:
+            ws.append("(WF %s %s)" % (ctext(lx), ctext(str(float(lx)))) if ty == "FLOAT" else "(%s %s)" % (self.WORDS[ty], ctext(lx)))
+        return run, clist(ws)
+
     def pair(self):
-        k = self.take("STRING")
+        if self.peek() == "STRING":
+            k = "(KQ %s)" % ctext(self.take("STRING"))
+        else:
+            _, ws = self.wordrun()
+            k = "(KW %s)" % ws
         self.take("COLON")
-        v = self.leaf()
+        if self.peek() == "STRING":
+            v = "(PVLeaf (XS %s))" % ctext(self.take("STRING"))
+        else:
+            if self.peek() not in self.WORDS:
+                raise Outside("pair value %s" % self.peek())
+            save = self.i
+            run, ws = [], None
+            while self.peek() in self.WORDS:
+                run.append(self.peek())
+                self.i += 1
+            self.i = save
+            if len(run) == 1 and run[0] in ("ID", "INT", "FLOAT"):
+                v = "(PVLeaf %s)" % self.leaf()
+            else:
+                _, ws = self.wordrun()
+                v = "(PVWords %s)" % ws
         if self.peek() not in ("COMMA", "RBRACK"):
             raise Outside("pair value followed by %s" % self.peek())
-        return "(%s, %s)" % (ctext(k), v)
+        return "(%s, %s)" % (k, v)
+
+    def dict_start(self):
+        if self.peek() != "LBRACK":
+            return False
+        if self.peek(1) == "STRING":
+            return self.peek(2) == "COLON"
+        k = 1
+        while self.peek(k) in self.WORDS:
+            k += 1
+        return k > 1 and self.peek(k) == "COLON"
 
     def arg(self):
         name = self.take("ID")
         self.take("EQUAL")
-        if self.peek() == "LBRACK" and self.peek(1) == "STRING" and self.peek(2) == "COLON":
+        if self.dict_start():
             self.take("LBRACK")
             pairs, trail = self.seq(self.pair, "RBRACK")
             self.take("RBRACK")
@@ -127,4 +193,4 @@ def surface_case(parser_cls, text):
         return None
     except Exception:
         return None
-    return "(%s, %s, %s, %s)" % (prog, clist([ctext(g) for g, _, _ in toks]), ctext(final), ctext(text))
+    return "(%s, %s, %s, %s)" % (prog, clist([ctext(g) for g, _, _ in toks]), ctext(final), ctext(text))   # the caller appends the float oracle
